@@ -10,13 +10,13 @@ def describe(tier):
     return dict(
         rule="history system: from every validated object of the history sub-universe (live poisoned neighbours flush on both sides; in the thorough tier "
         "also from every state one legal assignment later), every misuse of the property's list at every element position: index tuples with a "
-        "component in {-1, dim, dim+1} (read and write), whole-array update of other length / other shape with equal item count, string longer than "
+        "component in {-1, dim, dim+1} (read and write), index tuples with one entry more than the array has dimensions, a sequence (list of 2, ndarray of 3) assigned where one number is expected, whole-array update of other length / other shape with equal item count, string longer than "
         "the space fixed at creation (by 1 byte, a slot, many; multi-byte text that fits in characters but not in bytes), same-length list with one larger dynamic item (first item; last item in memory order with the earlier ones replaced / shrunk so that the total does not grow), whole-struct dictionary whose last dynamic part is too large while earlier fields change, xobject of the same class and the same TOTAL size whose room is split differently between two dynamic fields (one part a slot larger than the space fixed at its creation), non-member value for a union reference (alone, and - as foreign object, unknown (name, data) pair or 1-tuple - inside a whole-struct / whole-array update whose other entries change), integer update naming another length (and, for n-D arrays, the item count); "
         "plus constructor misuse on the whole universe (_buffer of another context together with _context; _offset without _buffer). "
         "Oracle: an exception is raised and victim + neighbours read back unchanged.",
         bounds=dict(history_types=len(universe.rh(tier)), legal_prefix_depth=0 if tier == "quick" else 1),
         assumptions=["only the misuse classes named by the property are demanded to raise"],
-        must_fire=["x-index", "x-len", "x-str", "x-items", "x-struct", "x-struct-xobj", "x-struct-resplit", "x-union", "x-union-in", "x-ctx", "x-offset"],
+        must_fire=["x-index", "x-len", "x-str", "x-items", "x-struct", "x-struct-xobj", "x-struct-resplit", "x-scalar-seq", "x-union", "x-union-in", "x-ctx", "x-offset"],
     )
 
 
@@ -179,7 +179,7 @@ def misuse_menu(s, opts, d):
         return hist.events(s, o, d)
     evs = []
     t, mv = s.t, s.mv
-    seen_arr = 0
+    seen_arr = seen_sc = 0
     for path, nt, nv in nodes(t, mv):
         if nt[0] == "A":
             seen_arr += 1
@@ -196,6 +196,11 @@ def misuse_menu(s, opts, d):
                     for via in ("h", "v"):
                         evs.append(("x-index", via, path, tuple(idx), "get"))
                         evs.append(("x-index", via, path, tuple(idx), "set"))
+            # more index entries than dimensions (the extra entry in range of nothing / zero)
+            if all(sh > 0 for sh in shape):
+                for extra in (0, 5):
+                    for mode in ("get", "set"):
+                        evs.append(("x-index", "h", path, tuple([0] * len(shape)) + (extra,), mode))
             if path and path[-1] not in ("*", "#"):  # whole-array updates need a parent holding the array by value
                 for via in ("h", "v"):
                     evs.append(("x-len", via, path, "longer"))
@@ -229,6 +234,12 @@ def misuse_menu(s, opts, d):
             for via in ("h", "v"):
                 evs.append(("x-struct", via, path))
             evs.append(("x-struct-xobj", "h", path))
+        elif nt[0] == "S" and path and path[-1] not in ("*", "#"):
+            seen_sc += 1
+            if seen_sc <= opts.get("max_scalars", 6):
+                # a sequence where one number is expected: larger than the slot of the scalar
+                for form in ("list2", "nd3"):
+                    evs.append(("x-scalar-seq", "h", path, form))
         elif nt[0] == "Str" and path:
             for extra in (1, 8, 64, "mb", "mb4"):
                 for via in ("h", "v"):
@@ -292,6 +303,10 @@ def apply_misuse(s, ev):
             val = "L" * (room + ev[3])
         assert len(val.encode("utf8")) > room
         hand.assign(rt, rh, path, val)
+    elif kind == "x-scalar-seq":
+        dt = xt.NPDT[nt[1]]
+        arg = [nv, nv] if ev[3] == "list2" else np.array([nv, nv, nv], dtype=dt)
+        hand.assign(rt, rh, path, arg)
     elif kind == "x-items":
         variant = ev[3]
         items = dict(nv["items"])
